@@ -370,6 +370,11 @@ def canon_candidates(rng, n):
             path = ("/" + path) if (path or rng.random() < 0.5) else ""
         q = _cand(rng, q_atoms, 6) if rng.random() < 0.5 else ""
         f = _cand(rng, f_atoms, 5) if rng.random() < 0.4 else ""
+        if not auth and sc not in ("http", "https", "ws", "wss", "ftp") and rng.random() < 0.15:
+            # an EMPTY authority in front of a path that starts with "//": the only case in which the empty authority is
+            # written out ("x:////a", "////a") - without it the path would read as an authority
+            host = ""
+            path = "//" + path.lstrip("/")
         out.append((sc, user, password, host, port, path, q, f))
     return out
 
@@ -401,6 +406,8 @@ DEFAULTS = {"http": "80", "https": "443", "ws": "80", "wss": "443", "ftp": "21"}
 def canonical_side_conditions(t):
     """the URL-level conditions of the property statement that are not per-component"""
     sc, user, password, host, port, path, q, f = t
+    if host == "":
+        return user is None and port is None and path.startswith("//") and not any(x in (".", "..") for x in path.split("/"))
     if host is not None:
         if port is not None and DEFAULTS.get(sc) == port:
             return False
